@@ -21,6 +21,7 @@ class Result:
     self.states = 0           # distinct states (model checking engines)
     self.transitions = 0      # transitions explored (model checking engines)
     self.traces = 0           # histories / schedules / model traces replayed in lock-step on real gin
+    self.stateset = set()     # h64 of distinct model/implementation states visited
     self.nontrivial = set()   # h64 of distinct non-trivial case keys
     self.outcomes = set()     # small strings: distinct observed outcome classes
     self.witness = collections.Counter()
@@ -34,6 +35,9 @@ class Result:
     self.evals += 1
     if nontrivial:
       self.nontrivial.add(h64(key))
+
+  def state(self, key):
+    self.stateset.add(h64(key))
 
   def outcome(self, s):
     self.outcomes.add(s)
@@ -57,6 +61,7 @@ class Result:
     self.transitions += other.transitions
     self.traces += other.traces
     self.nontrivial |= other.nontrivial
+    self.stateset |= other.stateset
     self.outcomes |= other.outcomes
     self.witness.update(other.witness)
     for v in other.violations:
